@@ -14,6 +14,7 @@ pub enum Body {
     Echo,
     Fail,
     Const(Value),
+    First,
 }
 
 #[derive(Clone, Debug, PartialEq)]
@@ -53,6 +54,7 @@ impl CtxSpec {
                         match body {
                             Body::Echo => Sx::atom("echo"),
                             Body::Fail => Sx::atom("fail"),
+                            Body::First => Sx::atom("first"),
                             Body::Const(v) => Sx::tagged("const", vec![value_to_sx(v)]),
                         },
                     ],
@@ -114,6 +116,7 @@ impl CtxSpec {
                                 let sig = k.get(1)?.as_list()?.iter().filter_map(|a| a.as_atom().map(String::from)).collect();
                                 let body = match k.get(2)? {
                                     Sx::Atom(a) if a == "fail" => Body::Fail,
+                                    Sx::Atom(a) if a == "first" => Body::First,
                                     Sx::Atom(_) => Body::Echo,
                                     b => Body::Const(sx_to_value(b.as_list()?.get(1)?)?),
                                 };
@@ -281,6 +284,7 @@ fn finish(log: &Log, name: &str, body: &Body, args: Vec<Value>) -> Result<Value,
         Body::Echo => Ok(Value::List(Arc::new(args))),
         Body::Fail => Err(ExecutionError::function_error(name, "host failure")),
         Body::Const(v) => Ok(v.clone()),
+        Body::First => Ok(args.first().cloned().unwrap_or(Value::Null)),
     }
 }
 
